@@ -40,6 +40,7 @@ type verifC23Sched struct {
 	inv   map[int]chan struct{}
 	trimG chan any // driver-owned trim pass (nil: none)
 	trimH bool     // debugLogMu held
+	heldB *cache2Bucket
 	infra []string
 	agree, compared int
 }
@@ -323,6 +324,26 @@ func (s *verifC23Sched) step(st verifkit.Step) {
 				return r.inCache.Load() == 0 || strings.Contains(verifC23AllStacks(), "tryNotExceedMemory")
 			})
 		}
+	case "SetLimitsRel": // limits relative to what is cached now: soft = size - under bytes, hard = size + room rows
+		unit := int(unsafe.Sizeof(tsSelectRow{}))
+		info := s.e.c.runtimeInfo()
+		v := cache2Limits{maxSize: info.size() + st.Int("room")*unit, maxSizeSoft: info.size() - st.Int("under")}
+		s.e.tr.Emit("Note", "what", "setLimits", "maxSize", v.maxSize, "soft", v.maxSizeSoft)
+		s.e.c.setLimits(v)
+	case "HoldBucket": // park whoever needs this bucket's mutex (a trim pass removing it)
+		if b := s.bucket(key); b != nil {
+			b.mu.Lock()
+			s.heldB = b
+		}
+	case "ReleaseBucket":
+		if s.heldB != nil {
+			s.heldB.mu.Unlock()
+			s.heldB = nil
+		}
+	case "WaitParked": // some goroutine is blocked on a mutex below the named function
+		if !verifC23WaitCond(s.e.deadline, func() bool { return verifC23Parked(st.Str("fn")) }) {
+			s.note("nobody parked in %s", st.Str("fn"))
+		}
 	case "HoldTrim": // park the cache's trim pass between collecting the buckets and removing them
 		s.e.c.debugLogMu.Lock()
 		s.trimH = true
@@ -397,7 +418,7 @@ func verifC23RunSchedule(res *verifkit.Result, run int, cs int, steps []verifkit
 	s.makeGateBuckets()
 	usedLimits := false
 	for _, st := range steps {
-		if st.Act() == "SetLimits" {
+		if st.Act() == "SetLimits" || st.Act() == "SetLimitsRel" {
 			usedLimits = true
 		}
 		s.step(st)
@@ -405,6 +426,10 @@ func verifC23RunSchedule(res *verifkit.Result, run int, cs int, steps []verifkit
 	// the environment finishes everything it started
 	for i := range s.inv {
 		s.invApply(i)
+	}
+	if s.heldB != nil {
+		s.heldB.mu.Unlock()
+		s.heldB = nil
 	}
 	if s.trimH {
 		s.trimH = false
